@@ -66,7 +66,7 @@ def run(rep, tier, seed, budget):
         et = ENC[int(fresh_int("enc", 0, 3))]
         s = symbols_of(L, V)
         try:
-            r = eu.selfies_to_encoding(s, stoi, pad_to_len=pad, enc_type=et)
+            r = symstr.robust_call(eu.selfies_to_encoding, s, stoi, pad_to_len=pad, enc_type=et)
             err = None
         except (KeyError, ValueError) as ex:
             r, err = None, ex
@@ -114,11 +114,11 @@ def run(rep, tier, seed, budget):
                 itos = itos_of(mdl)
                 expect = sc + "[nop]" * npad
                 if lab is not None:
-                    back = eu.encoding_to_selfies([model_value(mdl, x) for x in lab], itos, enc_type="label")
+                    back = symstr.robust_call(eu.encoding_to_selfies, [model_value(mdl, x) for x in lab], itos, enc_type="label")
                     if str(back) != expect:
                         hard = True
                 if hot is not None:
-                    back = eu.encoding_to_selfies(hot, itos, enc_type="one_hot")
+                    back = symstr.robust_call(eu.encoding_to_selfies, hot, itos, enc_type="one_hot")
                     if str(back) != expect:
                         hard = True
         mdl = eng.current_model() if hard else eng.find_model(bads)
@@ -149,9 +149,9 @@ def run(rep, tier, seed, budget):
             if not wf(items):
                 return
             try:
-                lab, hot = eu.selfies_to_encoding(sc, stoi, enc_type="both")
-                flat = eu.batch_selfies_to_flat_hot([sc], stoi)
-                back = eu.batch_flat_hot_to_selfies(flat, itos)
+                lab, hot = symstr.robust_call(eu.selfies_to_encoding, sc, stoi, enc_type="both")
+                flat = symstr.robust_call(eu.batch_selfies_to_flat_hot, [sc], stoi)
+                back = symstr.robust_call(eu.batch_flat_hot_to_selfies, flat, itos)
             except Exception as ex:  # noqa
                 results.append((V, sc, "raised %r" % (ex,)))
                 continue
@@ -182,7 +182,7 @@ def run(rep, tier, seed, budget):
         a = symbols_of(La, V, "a")
         b = symbols_of(Lb, V, "b")
         try:
-            flat = eu.batch_selfies_to_flat_hot([a, b], stoi, pad)
+            flat = symstr.robust_call(eu.batch_selfies_to_flat_hot, [a, b], stoi, pad)
         except KeyError:
             flat = None
         sa, sb = str(a), str(b)
@@ -210,13 +210,13 @@ def run(rep, tier, seed, budget):
             if [list(x) for x in flat] != want:
                 bad = True
             else:
-                back = eu.batch_flat_hot_to_selfies(flat, itos)
+                back = symstr.robust_call(eu.batch_flat_hot_to_selfies, flat, itos)
                 if [str(x) for x in back] != [sa + "[nop]" * max(0, padv - len(ia)), sb + "[nop]" * max(0, padv - len(ib))]:
                     bad = True
                 # ragged vector must raise ValueError
                 if want[0]:
                     try:
-                        eu.batch_flat_hot_to_selfies([want[0][:-1]], itos)
+                        symstr.robust_call(eu.batch_flat_hot_to_selfies, [want[0][:-1]], itos)
                         bad = True
                     except ValueError:
                         pass
